@@ -35,7 +35,9 @@ GAP = ("server side: tied by the T2 component s_srvord (a real http2Server over 
        "revision; mem.BufferSlice reader internals are exercised (multi-buffer payloads, empty buffers, pooled buffers) but not modelled beyond lengths")
 ASSUMPTIONS = ["stream ids are never registered while still established", "FNV-1a 32-bit content hash identifies a byte range of the generated stream",
                "the environment obligations listed in LEVEL_NOTE hold for http2Client/http2Server (streams where they do not are skipped)"]
-RULE = ("T1: same generator as C01 (6 profiles + hand-written corner cases; ~35% undisciplined histories in which streams turn `wild`); payloads split "
+RULE = ("T1: same generator as C01 (6 profiles + hand-written corner cases; "
+        "response HEADERS / trailers / data / window updates addressed at any time to live, finished, cleaned-up and never-registered streams, a directed after-close family (every item kind after every way a stream can end in the writer: cleanupStream with/without RST_STREAM, trailers at once / behind data / starved then reset, client END_STREAM then cleanup), "
+        "~35% undisciplined histories in which streams turn `wild`); payloads split "
         "over 0-5 mem.Buffers. T2 (s_srvord): ~60 (quick) random scripts of peer frames and handler calls against a real http2Server, incl. small/zero "
         "peer windows, trailers behind starved data, peer resets, deadlines with handlers that answer DeadlineExceeded; a case is non-trivial when the real writer emitted DATA and at least one stream had to wait for stream quota")
 
